@@ -395,6 +395,10 @@ def _random_name(rng, unicode_names: bool) -> str:
         units = rng.randint(2, 14)
     out = []
     n = 0
+    if unicode_names and rng.random() < 0.06:
+        # a first unit that a byte-order-mark-aware decoder would swallow (U+FEFF) or take as "the other byte order" (U+FFFE)
+        out.append(rng.choice('\ufeff\ufffe'))
+        n = 1
     while n < units:
         c = _random_char(rng, unicode_names)
         u = 2 if ord(c) > 0xFFFF else 1
